@@ -55,6 +55,11 @@ def connect (s : Pins) (k : Key) (p : Presented) (payload : List Nat) (response 
 def connectOff (s : Pins) (k : Key) (_p : Presented) (payload : List Nat) (response : Nat) : Pins × Outcome × List Act :=
   (s, .accepted response, [.connect k] ++ (sends k payload ++ [.await, .close]))
 
+/-- the pin store fails while the pin is looked up or written (`sqlite3.OperationalError`: locked database,
+    read-only medium, I/O error): verification cannot be completed, the exception leaves `_get_single` /
+    `upload` before `send_request`, the `finally` closes the transport -/
+def connectStoreFault (s : Pins) (k : Key) : Pins × Outcome × List Act := (s, .refused, [.connect k, .close])
+
 theorem get_set_self (s : Pins) (k : Key) (f : Fp) : (s.set k f).get k = some f := by
   simp [Pins.set, Pins.get]
 
